@@ -69,11 +69,11 @@ is in the session, and the relays are within the application's allowance and abo
 theorem claim_accepted_requires (s : State) (m : MsgClaim) (e : ClaimEnv) (c : Claim)
     (h : Event.accepted m.key c ∈ (deliverClaim s m e).events ∨ (deliverClaim s m e).err = none) :
     claimAcceptable s.height m e = true ∧
-    e.vb = none ∧ e.anteOk = true ∧ (m.key.et = 1 ∨ m.key.et = 2) ∧ e.sessCtxOk = true ∧
+    e.dup = false ∧ e.vb = none ∧ e.anteOk = true ∧ (m.key.et = 1 ∨ m.key.et = 2) ∧ e.sessCtxOk = true ∧
     s.height > m.key.sbh + e.sessB - 1 ∧ e.minProofs ≤ m.total ∧ e.chainSupported = true ∧
     e.nodeFound = true ∧ e.appFound = true ∧ m.total ≤ e.maxRelays ∧ e.chainsOverLimit = false ∧
     e.sessionPre = none ∧ e.inSession = true ∧ s.height ≤ e.curW * e.curB + m.key.sbh := by
-  rcases deliverClaim_cases s m e with ⟨_, h2, h3⟩ | ⟨_, _, _, hv, ha, hval, het⟩
+  rcases deliverClaim_cases s m e with ⟨_, h2, h3⟩ | ⟨_, _, _, hd, hv, ha, hval, het⟩
   · rcases h with h | h
     · rw [h2] at h; simp at h
     · exact absurd h h3
@@ -82,9 +82,9 @@ theorem claim_accepted_requires (s : State) (m : MsgClaim) (e : ClaimEnv) (c : C
     have a3 : e.minProofs ≤ m.total := by omega
     have a7 : m.total ≤ e.maxRelays := by omega
     have a11 : s.height ≤ e.curW * e.curB + m.key.sbh := by omega
-    refine ⟨?_, hv, ha, het, a1, a2, a3, a4, a5, a6, a7, a8, a9, a10, a11⟩
+    refine ⟨?_, hd, hv, ha, het, a1, a2, a3, a4, a5, a6, a7, a8, a9, a10, a11⟩
     unfold claimAcceptable
-    rcases het with het | het <;> simp [hv, ha, het, a1, a4, a5, a6, a8, a9, a10] <;> omega
+    rcases het with het | het <;> simp [hd, hv, ha, het, a1, a4, a5, a6, a8, a9, a10] <;> omega
 
 /-- Conversely the handler stores every claim that passes those checks (the spec is exact). -/
 theorem claim_accepted_iff (s : State) (m : MsgClaim) (e : ClaimEnv) :
@@ -96,12 +96,12 @@ theorem claim_accepted_iff (s : State) (m : MsgClaim) (e : ClaimEnv) :
     unfold claimAcceptable at h
     simp only [Bool.and_eq_true, Bool.or_eq_true, beq_iff_eq, decide_eq_true_eq, Option.isNone_iff_eq_none,
       Bool.not_eq_true'] at h
-    obtain ⟨⟨⟨⟨⟨⟨⟨⟨⟨⟨⟨⟨⟨hv, ha⟩, het⟩, a1⟩, a2⟩, a3⟩, a4⟩, a5⟩, a6⟩, a7⟩, a8⟩, a9⟩, a10⟩, a11⟩ := h
+    obtain ⟨⟨⟨⟨⟨⟨⟨⟨⟨⟨⟨⟨⟨⟨hd, hv⟩, ha⟩, het⟩, a1⟩, a2⟩, a3⟩, a4⟩, a5⟩, a6⟩, a7⟩, a8⟩, a9⟩, a10⟩, a11⟩ := h
     have het0 : m.key.et ≠ 0 := by omega
     have hnot : ¬ (m.key.et ≠ 1 ∧ m.key.et ≠ 2) := by omega
     have hval := validateClaim_of_checks s.height m e het0 a1 (by omega) (by omega) a4 a5 a6 (by omega) a8 a9 a10
       (by omega)
-    simp [deliverClaim, handleClaim, hval, hv, ha, hnot]
+    simp [deliverClaim, handleClaim, hval, hd, hv, ha, hnot]
 
 example : (deliverClaim s5 (mC kRelay) envC).err = none := by decide
 example : (deliverClaim s5 (mC kRelay) { envC with inSession := false }).err = some Code.invalidSession := by decide
@@ -189,7 +189,7 @@ that stored claim. -/
 theorem reward_requires_valid_proof (fixed : Bool) (s : State) (m : MsgProof) (e : ProofEnv)
     (k : ClaimKey) (c : Claim) (a : Int) (h : Event.minted k c a ∈ (deliverProof fixed s m e).events) :
     k = m.key ∧ Claims.get s.claims m.key = some c ∧ a = e.reward ∧ proofPayable s.claims m e = true ∧
-    e.vb = none ∧ e.anteOk = true ∧ e.levelOk = true ∧ e.rootMatch = true ∧ e.indexAvail = true ∧
+    e.dup = false ∧ e.vb = none ∧ e.anteOk = true ∧ e.levelOk = true ∧ e.rootMatch = true ∧ e.indexAvail = true ∧
     e.indexOk = true ∧ e.merkle = .valid ∧ e.appFound = true ∧ e.leafErr = none ∧
     (deliverProof fixed s m e).err = none := by
   have h' : Event.minted k c a ∈ (step fixed s (.proof m e)).2 := h
@@ -197,10 +197,10 @@ theorem reward_requires_valid_proof (fixed : Bool) (s : State) (m : MsgProof) (e
   cases hop
   have hp' := hp
   unfold proofPayable at hp'
-  simp only [Bool.and_eq_true, Option.isNone_iff_eq_none, beq_iff_eq] at hp'
-  obtain ⟨⟨⟨⟨⟨⟨⟨⟨⟨⟨hv, hante⟩, _⟩, h1⟩, h2⟩, _⟩, h4⟩, h5⟩, hm⟩, h6⟩, hl⟩ := hp'
-  refine ⟨hk, hk ▸ hg, ha, hp, hv, hante, h1, h2, h4, h5, hm, h6, hl, ?_⟩
-  rcases deliverProof_cases fixed s m e with ⟨_, h2', _⟩ | ⟨_, _, _, _, _, _, _, _, _, hr⟩
+  simp only [Bool.and_eq_true, Option.isNone_iff_eq_none, beq_iff_eq, Bool.not_eq_true'] at hp'
+  obtain ⟨⟨⟨⟨⟨⟨⟨⟨⟨⟨⟨hd, hv⟩, hante⟩, _⟩, h1⟩, h2⟩, _⟩, h4⟩, h5⟩, hm⟩, h6⟩, hl⟩ := hp'
+  refine ⟨hk, hk ▸ hg, ha, hp, hd, hv, hante, h1, h2, h4, h5, hm, h6, hl, ?_⟩
+  rcases deliverProof_cases fixed s m e with ⟨_, h2', _⟩ | ⟨_, _, _, _, _, _, _, _, _, _, hr⟩
   · rw [h2'] at h; simp at h
   · rcases hr with ⟨hrep, _⟩ | ⟨_, _, _, herr, _⟩
     · rw [hrep] at hm; cases hm
@@ -238,7 +238,7 @@ theorem proof_error_effects (fixed : Bool) (s : State) (m : MsgProof) (e : Proof
       (deliverProof fixed s m e).state = { s with claims := s.claims.del m.key, supply := s.supply - e.burn } ∧
       Claims.get (deliverProof fixed s m e).state.claims m.key = none ∧
       (deliverProof fixed s m e).events = [.burned m.key c e.burn, .deleted m.key]) := by
-  rcases deliverProof_cases fixed s m e with ⟨h1, h2, _⟩ | ⟨c, hg, _, _, _, _, _, _, _, hr⟩
+  rcases deliverProof_cases fixed s m e with ⟨h1, h2, _⟩ | ⟨c, hg, _, _, _, _, _, _, _, _, hr⟩
   · exact Or.inl ⟨h1, h2⟩
   · rcases hr with ⟨hm, he, h1, h2⟩ | ⟨_, _, _, herr, _⟩
     · exact Or.inr ⟨c, hg, hm, he, h1, by rw [h1]; exact get_del_self _ _, h2⟩
@@ -258,7 +258,7 @@ theorem mint_deletes_claim_partial (fixed : Bool) (s : State) (m : MsgProof) (e 
   have hk := (reward_requires_valid_proof fixed s m e k c a h).1
   subst hk
   have hdk := deleteKey_typed fixed m hty
-  rcases deliverProof_cases fixed s m e with ⟨_, h2, _⟩ | ⟨_, _, _, _, _, _, _, _, _, hr⟩
+  rcases deliverProof_cases fixed s m e with ⟨_, h2, _⟩ | ⟨_, _, _, _, _, _, _, _, _, _, hr⟩
   · rw [h2] at h; simp at h
   · rcases hr with ⟨_, _, h1, _⟩ | ⟨_, _, _, _, ⟨_, h1, _⟩ | ⟨_, h1, _⟩⟩ <;> rw [h1] <;>
       simp only [hdk] <;> exact get_del_self _ _
